@@ -157,7 +157,7 @@ def case(ctx, rnd, i):
                 levels = rng.depth - t
                 first_in_parent = rng.start_index == 0
                 perform("lift_target", (a, b, "->", t), lambda tr_: tr_.lift(rng, t), True,
-                        {"levels": min(levels, 3), "remainder_invalid": _lift_remainder_invalid(rs, rng, t)})
+                        {"levels": min(levels, 3), **_lift_remainder_invalid(rs, rng, t)})
                 ctx.cover([sid, "lift_target", min(levels, 3), first_in_parent])
         for wn in (wrappers if len(wrappers) <= 4 else rnd.sample(wrappers, 4)):
             at = g.attrs(rs.nodes[wn].attrs, wn)
@@ -217,12 +217,15 @@ def case(ctx, rnd, i):
 
 def _lift_remainder_invalid(rs, rng, target):
     """Does lifting the range to depth `target` split an ancestor so that one of the two
-    copies is left with content its type does not accept?  (Reference regexes on the child
-    type sequences; positions read from the resolved range.)"""
+    copies is left with content its type does not accept, and at which level?  (Reference
+    regexes on the child type sequences; positions read from the resolved range.)
+    lift_target itself verifies (can_cut) the remainders at the range's own level exactly; at
+    outer levels it ignores the copy of the inner ancestor that stays behind."""
     from ..refschema import matches
 
     frm, to = rng.from_, rng.to
     split_after = split_before = False
+    inner_level = outer_level = False
     for d in range(rng.depth, target, -1):
         node = frm.node(d)
         kids = [c.type.name for c in node.content.content]
@@ -236,15 +239,22 @@ def _lift_remainder_invalid(rs, rng, target):
                 after = [inner] + after
             if split_before:
                 before = before + [inner]
+        bad = False
         if after or split_after:
             split_after = True
             if not matches(rs.nodes[node.type.name].regex, after):
-                return True
+                bad = True
         if before or split_before:
             split_before = True
             if not matches(rs.nodes[node.type.name].regex, before):
-                return True
-    return False
+                bad = True
+        if bad:
+            if d == rng.depth:
+                inner_level = True
+            else:
+                outer_level = True
+    return {"remainder_invalid": inner_level or outer_level, "remainder_invalid_at_range_level": inner_level,
+            "remainder_invalid_at_outer_level": outer_level}
 
 
 def _contains_run(big, small):
